@@ -164,6 +164,9 @@ pub struct CorpusType {
     pub key: Option<fn(&str) -> [u8; 8]>,
     /// the serde_json form of every generated value is unambiguous (C17)
     pub json_faithful: bool,
+    /// the type's Deserialize accepts exactly the value space its schema describes (no capacity
+    /// limits, no key de-duplication, no non-zero / text-format constraints)
+    pub strict_decode: bool,
     pub generated: bool,
 }
 
@@ -178,6 +181,7 @@ pub fn base<T: Gen + Serialize + Debug + 'static>(name: &str) -> CorpusType {
         roundtrip: None,
         key: None,
         json_faithful: false,
+        strict_decode: false,
         generated: false,
     }
 }
@@ -205,10 +209,29 @@ impl CorpusType {
         self.json_faithful = true;
         self
     }
+    pub fn strict(mut self) -> Self {
+        self.strict_decode = true;
+        self
+    }
 }
+
+const STRICT_HANDWRITTEN: &[&str] = &[
+    "bool", "u8", "u16", "u32", "u64", "u128", "i8", "i16", "i32", "i64", "i128", "f32", "f64", "()", "usize", "isize",
+    "Option<u32>", "Option<Option<i16>>", "Option<(u8, i64)>", "Result<u8, String>", "Result<u64, i8>", "Result<(), ()>",
+    "[u8; 0]", "[u32; 1]", "[i64; 2]", "[Option<u16>; 3]", "(u64,)", "(u8, i16)", "(bool, u32, f32)", "(u8, u16, u32, u64)",
+    "(i8, i16, i32, i64, i128)", "Range<u32>", "RangeInclusive<i16>", "RangeFrom<u64>", "RangeTo<u8>", "Box<u64>",
+    "Box<Option<[u32; 2]>>", "String", "Vec<u8>", "Vec<u64>", "Vec<String>", "Vec<Vec<i32>>", "VecDeque<u32>", "Demo", "UnitS",
+    "NewtypeS", "TupleS", "EmptyTupleS", "EmptyNamedS", "AllForms", "Generic<u16, String>", "Tree2", "E127", "E128", "E129",
+    "PubStruct", "PubEnum", "Key",
+];
 
 pub fn all() -> Vec<CorpusType> {
     let mut v = handwritten::types();
+    for t in v.iter_mut() {
+        if STRICT_HANDWRITTEN.contains(&t.name.as_str()) {
+            t.strict_decode = true;
+        }
+    }
     let mut g = generated::types();
     for t in g.iter_mut() {
         t.generated = true;
